@@ -201,6 +201,7 @@ class Mon:
         self.seen.add(sig)
         w = dict(self.case)
         w["check"] = check
+        w["key"] = key
         self.viol.append({"key": key, "what": f"[{check}] A={self.case['A']['kind']} B={self.case['B']['kind']} {what}"[:900], "witness": w})
 
 
@@ -1099,7 +1100,10 @@ def run_shard(spec):
 def replay(w):
     C, S = {}, {}
     case = {k: w[k] for k in ("A", "B", "relation", "pseed", "nprobe")}
+    case["all_lazy_ops"] = True
     mon = check_case(case, C, S)
     want = w.get("check")
-    out = [v for v in mon.viol if v["witness"].get("check") == want] or mon.viol
+    out = [v for v in mon.viol if v["witness"].get("check") == want and v["key"] == w.get("key")] or [v for v in mon.viol if v["witness"].get("check") == want] or mon.viol
+    for v in out:
+        v["what"] = f"key={v['key']} " + v["what"]
     return out
